@@ -7,6 +7,30 @@ NOTES = ('Model-based verification with explicit TLA+ specifications (spec/*.tla
          'fix: commits (KNOWN_FINDINGS.json, section "fixed").')
 
 CHECKS = {
+    'C01': dict(
+        level='model_checking',
+        technique='TLC-generated robust programs (RoSem.tla) replayed into rsome.ro; returned solutions validated by TLC at every vertex of every set',
+        design_ref='DESIGN.md 2.7, 5/C01',
+        text=('RoSem.tla is a denotational semantics of ro models on a grid-exact family (integer data, 19 uncertainty sets with '
+              'vertex lists or exact 2-norm balls chosen to reach every branch of the support dual and of le_to_rc). TLC enumerates '
+              'the programs; each is built and solved through the public API with a rotating solver interface; x*, the decision-rule '
+              'coefficients and the objective go back to TLC (validator mode), which evaluates every robust row at every vertex of '
+              'its set (so "for all z" is decided, not sampled), equalities in both directions, the declared dependency mask and '
+              'the objective bound. An independent vertex-expansion LP/MILP (HiGHS, not through rsome) cross-checks the optimum.'),
+        note=('Trusted: TLC, ro_catalogue.py (H-representations; validated against the vertex lists each run), rounding of returned '
+              'values to 1e-5 with tolerance widened accordingly. Bounded: 2 decisions + 1 decision rule, 2 random components, <=2 rows. '
+              'p-norm/KL/entropy sets are not in this family yet.')),
+    'C02': dict(
+        level='model_checking',
+        technique='exact grid optimum computed by TLC (RoSem.tla GridOpt) + vertex-expansion LP oracle vs the optimum reported by rsome.ro',
+        design_ref='DESIGN.md 2.7, 5/C02',
+        text=('For every generated program TLC computes the exact optimum over the integer decision grid by exhaustive enumeration: '
+              'for all-integer models the reported optimum must equal it (and the model must be solvable exactly when a grid point is '
+              'feasible); for continuous models it is a one-sided bound (the reported optimum may not be worse than a feasible grid '
+              'point). Together with C01 (reported value bounds the worst case) this pins the optimum. For polytope sets the vertex '
+              'expansion LP solved directly with HiGHS demands equality for continuous models too.'),
+        note=('GridOpt is exact only on the grid; the two-sided verdict for continuous models rests on the float LP oracle '
+              '(tolerance 2e-6 relative, x10 margin before a violation). Same bounds as C01.')),
     'C13': dict(
         level='model_checking',
         technique='TLC model checking of Partition.tla + replay of every exported history into rsome.dro + TLC trace validation',
